@@ -4,6 +4,9 @@ import (
 	"fmt"
 	"strings"
 	"sync"
+	"time"
+
+	clientproxy "github.com/fatedier/frp/client/proxy"
 
 	"verif/h"
 )
@@ -40,7 +43,14 @@ var (
 	phaseDone  = make(chan struct{})
 	phaseCount int64
 	phaseEdges = map[string]int64{}
+	startErrs  = map[string][]string{} // proxy name -> error texts of its start errors
 )
+
+func startErrorTexts(name string) []string {
+	phaseMu.Lock()
+	defer phaseMu.Unlock()
+	return append([]string(nil), startErrs[name]...)
+}
 
 func installPhaseMonitor() {
 	h.OnHook("client.wrapper.phase", "", func(_ string, args []any) {
@@ -77,6 +87,19 @@ func installPhaseMonitor() {
 			select {
 			case phaseBad <- bad:
 			default:
+			}
+		}
+		if to == "start error" {
+			// the error text is stored right after the hook returns; fetch it for diagnostics
+			if pw, ok := ptr.(*clientproxy.Wrapper); ok {
+				go func() {
+					time.Sleep(20 * time.Millisecond)
+					if st := pw.GetStatus(); st.Err != "" {
+						phaseMu.Lock()
+						startErrs[name] = append(startErrs[name], st.Err)
+						phaseMu.Unlock()
+					}
+				}()
 			}
 		}
 	})
